@@ -6,7 +6,7 @@ import ast
 from ..cfg import CFG
 from ..core import (AnalysisError, DefRef, LambdaRef, NotConst, Ref, call_name, calls_in, dotted, func_params, norm,
                     qualname_of, walk_no_nested)
-from ..dispatch import (FALSE, NOTIMPL, OPS, TRUE, UNKNOWN, VALUE, ForeignEval, Raise, binary_compare, is_raise,
+from ..dispatch import (FALSE, NOTIMPL, OPS, TRUE, UNKNOWN, VALUE, ForeignEval, Raise, binary_compare, feasible_nodes, is_raise,
                         membership)
 
 PROPERTY = "C08"
@@ -120,6 +120,37 @@ class LambdaEval:
         self.module = lam.module
         return self.val(lam.node.body)
 
+    def run_function(self, fn, left_is_sentinel: bool):
+        params = func_params(fn)
+        if len(params) != 2:
+            raise AnalysisError("comparator function does not take two parameters")
+        self.bind = {params[0]: "S" if left_is_sentinel else "O", params[1]: "O" if left_is_sentinel else "S"}
+        self.module = fn._module
+        return self.block(fn.body)
+
+    def block(self, stmts):
+        for st in stmts:
+            if isinstance(st, ast.Expr) and isinstance(st.value, ast.Constant):
+                continue  # docstring
+            if isinstance(st, ast.Return):
+                return self.val(st.value) if st.value is not None else VALUE
+            if isinstance(st, ast.If):
+                t = self.truth(st.test)
+                if is_raise(t):
+                    return t
+                if t is True:
+                    r = self.block(st.body)
+                elif t is False:
+                    r = self.block(st.orelse)
+                else:
+                    a, b = self.block(st.body), self.block(st.orelse)
+                    r = a if a == b else UNKNOWN
+                if r is not None:
+                    return r
+                continue
+            raise AnalysisError(f"comparator function statement {type(st).__name__} not modelled")
+        return None
+
     def ref_of(self, name):
         return self.sent_ref if self.bind[name] == "S" else self.other_ref
 
@@ -191,6 +222,9 @@ class LambdaEval:
         if isinstance(e, ast.UnaryOp) and isinstance(e.op, ast.Not):
             inner = self.val(e.operand)
             return inner if is_raise(inner) else {TRUE: FALSE, FALSE: TRUE}.get(inner, UNKNOWN)
+        if isinstance(e, ast.Compare) and len(e.ops) == 1 and isinstance(e.ops[0], (ast.In, ast.NotIn)) and \
+                isinstance(e.left, ast.Name) and isinstance(e.comparators[0], ast.Name) and e.left.id in self.bind and e.comparators[0].id in self.bind:
+            return membership(self.ev, self.ref_of(e.left.id), self.ref_of(e.comparators[0].id), self.sent_ref, self.sent_out, isinstance(e.ops[0], ast.NotIn))
         if isinstance(e, ast.BoolOp):
             t = self.truth(e)
             return t if is_raise(t) else {True: TRUE, False: FALSE}.get(t, UNKNOWN)
@@ -213,8 +247,12 @@ def run(ctx):
     k = func_params(ga)[1]
     rets = [n for n in walk_no_nested(ga) if isinstance(n, ast.Return)]
     ctx.floor("R8.1", "return statements in WrappedRecord.__getattr__", len(rets), 1)
+    from ..core import expand_aliases, single_assign_aliases
+
+    ga_al = single_assign_aliases(ga)
     for r in rets:
-        ctx.check(is_sentinel_getattr(r.value, "self.record", k, sent_name), "R8.1", "WrappedRecord.__getattr__:return",
+        rv = expand_aliases(r.value, ga_al) if r.value is not None else None
+        ctx.check(is_sentinel_getattr(rv, "self.record", k, sent_name), "R8.1", "WrappedRecord.__getattr__:return",
                   f"returns {norm(r.value) if r.value else None} - not the value of the wrapped record's attribute with the sentinel "
                   "as default (a present field may be reported missing, or a missing one may raise)", r,
                   f"getattr(self.record, {k}, {sent_name})", key=f"R8.1:WrappedRecord.__getattr__:return:{norm(r.value) if r.value else 'None'}")
@@ -227,13 +265,16 @@ def run(ctx):
     # compiled engine binds r to WrappedRecord(record)
     cm = ctx.anchor_func("flow.record.selector.CompiledSelector.match")
     p = func_params(cm)[1]
+    from ..core import dict_bindings
+
     ok = False
-    for d in ast.walk(cm):
-        if isinstance(d, ast.Dict):
-            for kk, vv in zip(d.keys, d.values):
-                if isinstance(kk, ast.Constant) and kk.value == "r":
-                    rr = prog.resolve_expr(sel, vv.func) if isinstance(vv, ast.Call) else None
-                    ok = isinstance(rr, DefRef) and rr.qualname.endswith("WrappedRecord") and vv.args and norm(vv.args[0]) == p
+    evs = [c for c in calls_in(cm) if call_name(c) == "eval" and len(c.args) > 1]
+    if evs:
+        _bases, binds, _copied = dict_bindings(cm, evs[0].args[1])
+        vv = binds.get("r")
+        if isinstance(vv, ast.Call):
+            rr = prog.resolve_expr(sel, vv.func)
+            ok = isinstance(rr, DefRef) and rr.qualname.endswith("WrappedRecord") and bool(vv.args) and norm(vv.args[0]) == p
     ctx.check(ok, "R8.1", "CompiledSelector.match:r-binding", "`r` is not bound to WrappedRecord(record)", cm, "r = WrappedRecord(record)")
     # interpreted engine: Attribute branch
     ev_fn = ctx.anchor_func("flow.record.selector.RecordContextMatcher._eval")
@@ -246,9 +287,11 @@ def run(ctx):
         raise AnalysisError("R8.1: Attribute branch of RecordContextMatcher._eval not found")
     arets = [n for s0 in attr_branch.body for n in walk_no_nested(s0) if isinstance(n, ast.Return)]
     ctx.floor("R8.1", "returns in the interpreted Attribute branch", len(arets), 1)
+    ev_al = single_assign_aliases(ev_fn)
     for r in arets:
-        good = isinstance(r.value, ast.Call) and call_name(r.value) == "getattr" and len(r.value.args) == 3 and \
-            dotted(r.value.args[2]) == sent_name and norm(r.value.args[1]) == "node.attr"
+        rv = expand_aliases(r.value, {k2: v2 for k2, v2 in ev_al.items() if not isinstance(v2, ast.Call)}) if r.value is not None else None
+        good = isinstance(rv, ast.Call) and call_name(rv) == "getattr" and len(rv.args) == 3 and \
+            dotted(rv.args[2]) == sent_name and norm(rv.args[1]) == "node.attr"
         ctx.check(good, "R8.1", "RecordContextMatcher._eval:Attribute:return",
                   f"returns {norm(r.value)} instead of getattr(obj, node.attr, {sent_name})", r, norm(r.value))
 
@@ -305,7 +348,9 @@ def run(ctx):
                 elif isinstance(entry, LambdaRef):
                     oi = LambdaEval(ev, sent_ref, sent_out, kref).run(entry, left_is_sentinel=(pos == "left"))
                 elif isinstance(entry, DefRef) and isinstance(entry.node, ast.FunctionDef):
-                    raise AnalysisError(f"comparator for {op} is a named function - evaluate it like the lambdas (not modelled yet)")
+                    oi = LambdaEval(ev, sent_ref, sent_out, kref).run_function(entry.node, left_is_sentinel=(pos == "left"))
+                    if oi is None:
+                        oi = VALUE
                 else:
                     raise AnalysisError(f"comparator for {op} is {entry!r} - not modelled")
                 for engine, o in (("compiled", oc), ("interpreted", oi)):
@@ -340,18 +385,27 @@ def run(ctx):
     if binop is None:
         raise AnalysisError("R8.4: BinOp branch not found")
     cfg = CFG(ev_fn)
-    applied = [c for s0 in binop.body for c in ast.walk(s0) if isinstance(c, ast.Call) and isinstance(c.func, ast.Subscript)
-               and norm(c.func.value) == "AST_OPERATORS"]
+    applied = [c for s0 in binop.body for c in ast.walk(s0) if isinstance(c, ast.Call) and (
+        (isinstance(c.func, ast.Subscript) and norm(c.func.value) == "AST_OPERATORS") or
+        (isinstance(c.func, ast.Name) and any(isinstance(a, ast.Assign) and norm(a.targets[0]) == c.func.id and isinstance(a.value, ast.Subscript)
+                                               and norm(a.value.value) == "AST_OPERATORS" for s1 in binop.body for a in ast.walk(s1))))]
     ctx.floor("R8.4", "operator applications in the BinOp branch", len(applied), 1)
     sent_cls_name = sent_ref.qualname.split(".")[-1]
+    first = cfg.node_of(binop.body[0])
     for c in applied:
         node = cfg.node_of(c)
-        facts = {(t, pol) for t, pol, _ in cfg.facts_at(node.id)}
-        args = [norm(a) for a in c.args]
-        ok = all(((f"isinstance({a}, {sent_cls_name})", False) in facts) or ((f"{a} is {sent_name}", False) in facts) for a in args)
-        ctx.check(ok, "R8.4", "RecordContextMatcher._eval:BinOp:apply",
-                  "an arithmetic/bit operator can be applied to the sentinel (raises TypeError instead of evaluating to False)", c,
-                  f"guarded: neither {args} is a {sent_cls_name}")
+        operands = [a.id for a in c.args if isinstance(a, ast.Name)]
+        reach = []
+        for opnd in operands:
+            # the operand variable holds the sentinel from its definition onwards: start right after it is assigned
+            defs = [n for n in cfg.stmt_nodes() if isinstance(n.ast, ast.Assign) and any(norm(t) == opnd for t in n.ast.targets) and n.ast in [x for s1 in binop.body for x in ast.walk(s1)]]
+            start_id = defs[-1].id if defs else first.id
+            feas = feasible_nodes(ev, cfg, ev_fn, start_id, {opnd: "FOREIGN"})
+            if node.id in feas:
+                reach.append(opnd)
+        ctx.check(len(operands) == len(c.args) and not reach, "R8.4", "RecordContextMatcher._eval:BinOp:apply",
+                  f"the operator application is reachable when {reach or 'an operand'} is the sentinel: an arithmetic/bit operator applied to a missing field raises TypeError "
+                  "instead of evaluating to False", c, f"not reachable with {operands} being a {sent_cls_name}")
 
     # ------------------------------------------------------------------ R8.5 helpers skip missing fields
     ctx.rule("R8.5", "helper functions that loop over field names read the field with the sentinel default and skip it "
@@ -390,27 +444,22 @@ def run(ctx):
             ctx.check(good_read, "R8.5", f"{fn.name}:field-read", f"{norm(call)} does not default to the sentinel", rd,
                       f"{norm(call)} yields {sent_name} for a missing field")
             fcfg = CFG(fn)
-            # the skip test: `if <var> is SENTINEL: continue` (body never falls through)
-            skip = None
-            for st in loop.body[loop.body.index(rd) + 1:]:
-                # a skip test is any `if <test>: ...continue` whose test is TRUE when the variable holds the sentinel
-                # (`v is SENTINEL`, `not isinstance(v, str)`, ...) - evaluated with the foreign-operand evaluator
-                if isinstance(st, ast.If) and st.body and isinstance(st.body[-1], (ast.Continue, ast.Return, ast.Raise, ast.Break)) \
-                        and any(isinstance(n, ast.Name) and n.id == var for n in ast.walk(st.test)):
-                    if ev.truth(st.test, {var: "FOREIGN"}, fn, None, 0) is True:
-                        skip = st
-                        break
-            if skip is None:
-                ctx.fail("R8.5", f"{fn.name}:skip-missing", f"no test that is true for the sentinel and skips the field follows the read of {var} "
-                         "(a missing field is not skipped)", rd, key=f"R8.5:{fn.name}:no-skip-test")
-                continue
-            rd_node, skip_node = fcfg.node_of(rd), fcfg.node_of(skip)
-            uses = [n for st in loop.body[loop.body.index(rd) + 1:] for n in ast.walk(st)
-                    if isinstance(n, ast.Name) and n.id == var and isinstance(n.ctx, ast.Load) and n not in list(ast.walk(skip.test))]
-            use_nodes = {(fcfg.header_node_for_expr(u) or fcfg.node_of(u)).id for u in uses}
-            escaped = fcfg.must_pass_through(use_nodes, via=lambda n: n.id == skip_node.id, src=rd_node.id)
-            ctx.check(not escaped, "R8.5", f"{fn.name}:skip-missing",
-                      f"{var} is used (line {fcfg.nodes[escaped[0]].lineno if escaped else 0}) on a path from the field read that "
-                      "bypasses the sentinel test (a missing field is not skipped)", rd,
-                      f"every path from the read of {var} to its {len(uses)} uses passes the sentinel-skipping test `{norm(skip.test)}`")
+            rd_node = fcfg.node_of(rd)
+            uses = [n for st in loop.body[loop.body.index(rd) + 1:] for n in ast.walk(st) if isinstance(n, ast.Name) and n.id == var and isinstance(n.ctx, ast.Load)]
+            # a test on the variable that only decides whether it is the sentinel is not a "use"
+            feas = feasible_nodes(ev, fcfg, fn, rd_node.id, {var: "FOREIGN"}, stop_at=lambda nd: nd.id == rd_node.id)
+            bad = []
+            for u in uses:
+                hn = fcfg.header_node_for_expr(u) or fcfg.node_of(u)
+                if hn.id not in feas:
+                    continue
+                # inside a test node: allowed if the whole test has a definite value under the sentinel (it is the skip test itself)
+                if hn.kind == "test":
+                    t = ev.truth(hn.ast.test, {var: "FOREIGN"}, fn, None, 0)
+                    if t in (True, False):
+                        continue
+                bad.append(u)
+            ctx.check(not bad, "R8.5", f"{fn.name}:skip-missing",
+                      f"{var} is used at line {bad[0].lineno if bad else 0} on a path that a missing field (the sentinel) can take: the field is not skipped", bad[0] if bad else rd,
+                      f"none of the {len(uses)} uses of {var} is reachable when it holds {sent_name}", key=f"R8.5:{fn.name}:missing-field-not-skipped")
     ctx.floor("R8.5", "helper functions looping over field names", looping, 3)
